@@ -218,3 +218,8 @@ fn contains_any_or_is_control(string: &str, values: &[char]) -> bool {
         .chars()
         .any(|x| values.iter().any(|v| &x == v || x.is_control()))
 }
+
+// verification hook: bounded-model-checking harnesses (compiled only by Kani, `--cfg kani`)
+#[cfg(kani)]
+#[path = "/verif/harness/h_ser_quoting.rs"]
+mod verif;
